@@ -439,9 +439,163 @@ def shrink_net(net: dict, N: int, key: str) -> dict:
     return net
 
 
+def _want_closest(dist, n: int, N: int, margin: float):
+    """{unordered pairs} of the N closest others of every minimum from a full distance table, or None when some
+    N-th / (N+1)-th pair of distances is closer than `margin` (no unique answer)"""
+    want = set()
+    for i in range(n):
+        others = sorted((dist[i][j], j) for j in range(n) if j != i)
+        if N < len(others) and others[N][0] - others[N - 1][0] < margin:
+            return None
+        want |= {frozenset((i, j)) for _, j in others[:N]}
+    return want
+
+
+def pred_atomic_network(seed: int, N: int) -> tuple[str, str] | None:
+    """clusters stored in different frames (rotated, translated, like atoms renumbered): "closest" is the distance
+    AFTER alignment, which is what the molecular similarity reports; reference = that similarity asked pair by pair
+    through a fresh object"""
+    import random
+    from topsearch.analysis import pair_selection as ps
+    from topsearch.data.coordinates import AtomicCoordinates
+    from topsearch.data.kinetic_transition_network import KineticTransitionNetwork
+    from topsearch.sampling.exploration import NetworkSampling
+    from topsearch.similarity.molecular_similarity import MolecularSimilarity
+    rng = random.Random(seed)
+    np.random.seed(seed % (2 ** 31))
+    natoms, nmin = 4, rng.choice([4, 5, 6])
+    labels = ["C"] * natoms
+    base = np.array([[0, 0, 0], [1.2, 0, 0], [0.5, 1.1, 0], [0.6, 0.4, 1.0]], dtype=float)
+    direction = np.array([[rng.uniform(-1, 1) for _ in range(3)] for _ in range(natoms)])
+    ts = sorted(rng.sample(range(0, 40), nmin))
+    structs = []
+    for t in ts:                                    # one distortion coordinate: aligned distance grows with |t - t'|
+        x = base + 0.05 * t * direction
+        a = np.array([[rng.gauss(0, 1) for _ in range(3)] for _ in range(3)])
+        q, r = np.linalg.qr(a)
+        q = q * np.sign(np.diag(r))
+        if np.linalg.det(q) < 0:
+            q[:, 0] *= -1
+        perm = list(range(natoms)); rng.shuffle(perm)
+        structs.append((x[perm] @ q.T + np.array([rng.uniform(-3, 3) for _ in range(3)])).flatten())
+    ktn = KineticTransitionNetwork()
+    for k, x in enumerate(structs):
+        ktn.add_minimum(x.copy(), -1.0 - 0.1 * k)
+    sim = MolecularSimilarity(0.01, 1e-4, weighted=False)
+    ref = MolecularSimilarity(0.01, 1e-4, weighted=False)
+    coords = AtomicCoordinates(labels, structs[0].copy())
+    rc = AtomicCoordinates(labels, structs[0].copy())
+    dist = [[0.0] * nmin for _ in range(nmin)]
+    for i in range(nmin):
+        for j in range(i + 1, nmin):
+            rc.position = structs[i].copy()
+            dist[i][j] = dist[j][i] = float(ref.closest_distance(rc, structs[j].copy()))
+    want = _want_closest(dist, nmin, N, 0.05)
+    if want is None:
+        return None
+    samp = NetworkSampling(ktn, coords, None, None, None, sim)
+    for site, f in (("closest_enumeration", lambda: ps.closest_enumeration(ktn, sim, coords, N)),
+                    ("select_minima:ClosestEnumeration", lambda: samp.select_minima(coords, "ClosestEnumeration", N))):
+        out = f()
+        bad = check_pairs(out, nmin)
+        if bad:
+            return (f"{site}:invalid-pair:atomic", f"N={N}: {bad}")
+        got = {frozenset((int(a), int(b))) for a, b in out}
+        if got != want:
+            return (f"{site}:not-N-closest:atomic", f"N={N}, {nmin} four-atom clusters stored in different frames: missing "
+                    f"{sorted(map(sorted, want - got))[:4]} extra {sorted(map(sorted, got - want))[:4]} (closest = distance "
+                    "after alignment)")
+    return None
+
+
+def pred_mutation_sequence(seed: int) -> tuple[str, str] | None:
+    """the explore loop on ONE network / sampler / coordinates / similarity object: select, add what a search found,
+    select again, prune, select again — every selection is judged against the network as it is at that moment"""
+    import random
+    rng = random.Random(seed)
+    net = random_network(rng, rng.choice([4, 5, 6, 7]))
+    from topsearch.analysis import pair_selection as ps
+    from topsearch.sampling.exploration import NetworkSampling
+    ktn, sim, coords = build(net)
+    samp = NetworkSampling(ktn, coords, None, None, None, sim)
+    pts = [list(p) for p in net["points"]]
+    energies = list(net["energies"])
+    edges = [tuple(e) for e in net["edges"]]
+    dim = len(pts[0])
+    for stage in range(4):
+        n = len(pts)
+        cur = {"points": pts, "energies": energies, "edges": [list(e) for e in edges]}
+        rows = rows_of(pts)
+        if not generic(rows):
+            return None
+        comp = union_find(n, edges)
+        for N in (1, 2):
+            for site, f in (("connect_unconnected", lambda: ps.connect_unconnected(ktn, sim, coords, N)),
+                            ("select_minima:ConnectUnconnected", lambda: samp.select_minima(coords, "ConnectUnconnected", N)),
+                            ("closest_enumeration", lambda: ps.closest_enumeration(ktn, sim, coords, N))):
+                out = f()
+                bad = check_pairs(out, n)
+                if bad:
+                    return (f"{site}:invalid-pair:after-network-change", f"stage {stage}, N={N}: {bad}")
+                got = {frozenset((int(a), int(b))) for a, b in out}
+                if site == "closest_enumeration":
+                    want = {frozenset((i, j)) for i in range(n) for j in nclosest(rows, i, N)}
+                    if got != want:
+                        return (f"{site}:not-N-closest:after-network-change", f"stage {stage} of an explore loop on one set of "
+                                f"objects, N={N}: missing {sorted(map(sorted, want - got))[:4]} extra {sorted(map(sorted, got - want))[:4]}")
+                    continue
+                for a, b in out:
+                    if comp[int(a)] == comp[int(b)]:
+                        return (f"{site}:same-component:after-network-change", f"stage {stage}, N={N}: pair {[int(a), int(b)]} "
+                                "lies inside one connected component")
+                gmin = min(range(n), key=lambda k: energies[k])
+                for i in range(n):
+                    if comp[i] != comp[gmin]:
+                        outside = [j for j in range(n) if comp[j] != comp[i]]
+                        j = min(outside, key=lambda k: rows[i][k])
+                        if frozenset((i, j)) not in got:
+                            return (f"{site}:bridge-missing:after-network-change",
+                                    f"stage {stage} of an explore loop on one set of objects (the network has changed since "
+                                    f"the first selection), N={N}: minimum {i} is outside the global minimum's component but its "
+                                    f"closest outside minimum {j} is not proposed")
+        # change the network through the public mutators
+        if stage in (0, 1):
+            while True:
+                p = [rng.randrange(-256, 257) / 32.0 for _ in range(dim)]
+                if generic(rows_of(pts + [p])):
+                    break
+            e = min(energies) + rng.choice([0.125, 1.5]) if stage == 0 else min(energies) - 0.25
+            ktn.add_minimum(np.array(p), e)
+            pts.append(p); energies.append(e)
+            a = rng.randrange(len(pts) - 1)
+            ktn.add_ts(np.array([0.0] * dim), max(energies) + 1.0, len(pts) - 1, a)
+            edges.append((len(pts) - 1, a))
+        elif stage == 2 and len(pts) > 3:
+            k = rng.randrange(len(pts))
+            ktn.remove_minimum(k)
+            pts.pop(k); energies.pop(k)
+            edges = [(u - (u > k), v - (v > k)) for u, v in edges if k not in (u, v)]
+    return None
+
+
 def predicates(ctx: Ctx) -> None:
     rng = ctx.rng
     deep = getattr(ctx, "deep_search", False)
+    for it in range(ctx.scale(6, 40) * (3 if deep else 1)):
+        sd = rng.randrange(1 << 30)
+        N = rng.choice([1, 1, 2])
+        r = pred_atomic_network(sd, N)
+        ctx.stats.case({"stream": "predicate-atomic-network", "seed": sd, "N": N}, r is not None or True)
+        if r:
+            ctx.fail(r[0], r[1], {"atomic_seed": sd, "N": N})
+            break
+    for it in range(ctx.scale(15, 100) * (3 if deep else 1)):
+        sd = rng.randrange(1 << 30)
+        r = pred_mutation_sequence(sd)
+        ctx.stats.case({"stream": "predicate-mutation-sequence", "seed": sd}, True)
+        if r:
+            ctx.fail(r[0], r[1], {"sequence_seed": sd})
+            break
     cases = [(corpus_net(k), N) for k in CORPUS for N in (1, 2, 5)]
     cases += [(close_distance_network(rng), None) for _ in range(ctx.scale(12, 80) * (3 if deep else 1))]
     cases += [(random_network(rng), None) for _ in range(ctx.scale(60, 500) * (5 if deep else 1))]
@@ -470,6 +624,11 @@ def predicates(ctx: Ctx) -> None:
 
 
 def replay(ctx: Ctx, data: dict) -> bool:
+    if "atomic_seed" in data or "sequence_seed" in data:
+        r = pred_atomic_network(data["atomic_seed"], data["N"]) if "atomic_seed" in data else pred_mutation_sequence(data["sequence_seed"])
+        if r:
+            print(f"  {r[0]}: {r[1]}")
+        return r is None
     if "net" in data:
         r = predicate_net(data["net"], int(data.get("N", 1)))
         if r:
